@@ -11,7 +11,10 @@
 (* Compute must not touch the disk, Perform may only touch announced       *)
 (* files, all of them in the project region, writing exactly the previewed *)
 (* contents; a refusal leaves the disk alone and is one of rope's own      *)
-(* error types.  The environment (what rope actually did) is completely    *)
+(* error types.  Some requests cannot be honoured at all (`impossible`:     *)
+(* the destination of a move is the defining module itself, however it is  *)
+(* addressed; it does not exist; it is a plain folder): for those Compute  *)
+(* is not enabled, only Refuse.  The environment (what rope actually did) is completely    *)
 (* nondeterministic here: the module states the contract as action         *)
 (* properties; TraceEffects.tla evaluates the same formulas on effect      *)
 (* traces recorded from the real refactorings.                             *)
@@ -26,9 +29,10 @@ VARIABLES disk,         \* Files -> version number (0 = absent)
           phase,        \* "idle" | "computed" | "done" | "refused"
           announced,    \* files the change object lists
           preview,      \* Files -> version the preview promises
-          err
+          err,
+          impossible    \* the request cannot be honoured (fixed per request)
 
-vars == <<disk, phase, announced, preview, err>>
+vars == <<disk, phase, announced, preview, err, impossible>>
 
 Versions == 0..2
 
@@ -38,27 +42,29 @@ Init ==
   /\ announced = {}
   /\ preview = disk
   /\ err = "none"
+  /\ impossible \in BOOLEAN
 
 \* a well-behaved implementation
 Compute ==
   /\ phase = "idle"
+  /\ ~impossible
   /\ \E A \in SUBSET { f \in Files : RegionOf[f] = "project" } :
        /\ announced' = A
        /\ preview' \in { pv \in [Files -> Versions] : \A f \in Files \ A : pv[f] = disk[f] }
   /\ phase' = "computed"
-  /\ UNCHANGED <<disk, err>>
+  /\ UNCHANGED <<disk, err, impossible>>
 
 Perform ==
   /\ phase = "computed"
   /\ disk' = preview
   /\ phase' = "done"
-  /\ UNCHANGED <<announced, preview, err>>
+  /\ UNCHANGED <<announced, preview, err, impossible>>
 
 Refuse ==
   /\ phase = "idle"
   /\ phase' = "refused"
   /\ err' = "rope"
-  /\ UNCHANGED <<disk, announced, preview>>
+  /\ UNCHANGED <<disk, announced, preview, impossible>>
 
 Next == Compute \/ Perform \/ Refuse
 Spec == Init /\ [][Next]_vars
@@ -73,4 +79,5 @@ OnlyAnnounced  == [][phase = "computed" /\ phase' = "done" => Changed(disk, disk
 InsideProject  == phase \in {"computed", "done"} => \A f \in announced : RegionOf[f] = "project"
 PreviewMatches == [][phase = "computed" /\ phase' = "done" => \A f \in Changed(disk, disk') : disk'[f] = preview[f]]_vars
 RefusalClean   == [][phase' = "refused" => (disk' = disk /\ err' = "rope")]_vars
+RefusesImpossible == impossible => phase \in {"idle", "refused"}
 =============================================================================
